@@ -46,7 +46,8 @@
 namespace multi = boost::multi;
 using T = double;
 
-constexpr std::size_t NBUF = 1 << 13;
+constexpr std::size_t NBUF = 1 << 19;  // capacity; only the first g_len cells (the roots of the current program + guards) are filled, snapshotted and compared
+static std::size_t g_len = 0;
 static std::vector<double> g_buf;
 static FILE* fprog = nullptr;
 static FILE* fans = nullptr;
@@ -91,6 +92,37 @@ extern "C" void dgesvd_(char const& jobu, char const& jobvt, int const& m, int c
 	Depth d; real(jobu, jobvt, m, n, a, lda, s, u, ldu, vt, ldvt, work, lwork, info);
 }
 
+// LAPACK drivers the adaptor is not modelled to call: if one is reached from the adaptor (depth 0) its name is printed — a
+// correspondence difference by itself; the numeric and frame verdicts decide whether it is a failing input
+#define UNEXPECTED(NAME, PARAMS, ARGS) \
+	extern "C" void NAME PARAMS { \
+		static auto real = real_fn<void (*) PARAMS>(#NAME); \
+		if(g_depth == 0) g_calls.push_back(std::string("unexpected ") + #NAME); \
+		Depth d; real ARGS; \
+	}
+// the two syevd signatures are the ones lapack/core.hpp's (commented-out) xSYEVD macro declares
+UNEXPECTED(dsyevd_, (char const& jobz, char const& uplo, int const& n, double* a, int const& lda, double* w, double* work, int const& lwork, int* iwork, int const& liwork, int& info), (jobz, uplo, n, a, lda, w, work, lwork, iwork, liwork, info))
+UNEXPECTED(ssyevd_, (char const& jobz, char const& uplo, int const& n, float* a, int const& lda, float* w, float* work, int const& lwork, int* iwork, int const& liwork, int& info), (jobz, uplo, n, a, lda, w, work, lwork, iwork, liwork, info))
+UNEXPECTED(dsyevr_, (char const* jobz, char const* range, char const* uplo, int const* n, double* a, int const* lda, double const* vl, double const* vu, int const* il, int const* iu, double const* abstol, int* m, double* w, double* z, int const* ldz, int* isuppz, double* work, int const* lwork, int* iwork, int const* liwork, int* info), (jobz, range, uplo, n, a, lda, vl, vu, il, iu, abstol, m, w, z, ldz, isuppz, work, lwork, iwork, liwork, info))
+UNEXPECTED(dsyevx_, (char const* jobz, char const* range, char const* uplo, int const* n, double* a, int const* lda, double const* vl, double const* vu, int const* il, int const* iu, double const* abstol, int* m, double* w, double* z, int const* ldz, double* work, int const* lwork, int* iwork, int* ifail, int* info), (jobz, range, uplo, n, a, lda, vl, vu, il, iu, abstol, m, w, z, ldz, work, lwork, iwork, ifail, info))
+UNEXPECTED(dgesdd_, (char const* jobz, int const* m, int const* n, double* a, int const* lda, double* s, double* u, int const* ldu, double* vt, int const* ldvt, double* work, int const* lwork, int* iwork, int* info), (jobz, m, n, a, lda, s, u, ldu, vt, ldvt, work, lwork, iwork, info))
+UNEXPECTED(dgeqp3_, (int const* m, int const* n, double* a, int const* lda, int* jpvt, double* tau, double* work, int const* lwork, int* info), (m, n, a, lda, jpvt, tau, work, lwork, info))
+UNEXPECTED(dgeqr2_, (int const* m, int const* n, double* a, int const* lda, double* tau, double* work, int* info), (m, n, a, lda, tau, work, info))
+UNEXPECTED(dgeqrfp_, (int const* m, int const* n, double* a, int const* lda, double* tau, double* work, int const* lwork, int* info), (m, n, a, lda, tau, work, lwork, info))
+UNEXPECTED(dgeqrt_, (int const* m, int const* n, int const* nb, double* a, int const* lda, double* t, int const* ldt, double* work, int* info), (m, n, nb, a, lda, t, ldt, work, info))
+UNEXPECTED(dpotrf2_, (char const* uplo, int const* n, double* a, int const* lda, int* info), (uplo, n, a, lda, info))
+UNEXPECTED(dpotf2_, (char const* uplo, int const* n, double* a, int const* lda, int* info), (uplo, n, a, lda, info))
+UNEXPECTED(spotrf_, (char const& uplo, int const& n, float* a, int const& lda, int& info), (uplo, n, a, lda, info))
+#if LAPACK_PART != 3
+UNEXPECTED(dsyev_, (char const& jobz, char const& uplo, int const& n, double* a, int const& lda, double* w, double* work, int const& lwork, int& info), (jobz, uplo, n, a, lda, w, work, lwork, info))
+#endif
+#if LAPACK_PART != 1
+UNEXPECTED(dpotrf_, (char const& uplo, int const& n, double* a, int const& lda, int& info), (uplo, n, a, lda, info))
+#endif
+#if LAPACK_PART != 2
+UNEXPECTED(dgeqrf_, (int const* m, int const* n, double* a, int const* lda, double* tau, double* work, int const* lwork, int* info), (m, n, a, lda, tau, work, lwork, info))
+#endif
+
 // ------------------------------------------------------------------------------------------------ runtime views
 template<multi::dimensionality_type D> struct VS { multi::layout_t<D> lay; T* base; };
 using AnyView = std::variant<VS<1>, VS<2>>;
@@ -126,14 +158,14 @@ static std::vector<AnyView> g_regs(64);
 static VS<2> const& mat(int r) { return std::get<VS<2>>(g_regs[static_cast<std::size_t>(r)]); }
 static VS<1> const& vec(int r) { return std::get<VS<1>>(g_regs[static_cast<std::size_t>(r)]); }
 
-static void fill_guard() { for(std::size_t p = 0; p < NBUF; ++p) g_buf[p] = -777000.0 - static_cast<double>(p % 97); }
+static void fill_guard() { for(std::size_t p = 0; p < g_len; ++p) g_buf[p] = -777000.0 - static_cast<double>(p % 97); }
 static std::string join(std::vector<long> const& v) { std::string s; for(std::size_t i = 0; i < v.size(); ++i) { if(i) s += ' '; s += std::to_string(v[i]); } return s; }
 static void flush_calls() { for(auto const& c : g_calls) std::fprintf(fans, "%s\n", c.c_str()); g_calls.clear(); }
 
 // cells outside `allowed` that changed
 static long frame_changes(std::vector<double> const& before, std::vector<char> const& allowed) {
 	long c = 0;
-	for(std::size_t p = 0; p < NBUF; ++p) if(!allowed[p] && std::memcmp(&g_buf[p], &before[p], sizeof(double)) != 0) ++c;
+	for(std::size_t p = 0; p < g_len; ++p) if(!allowed[p] && std::memcmp(&g_buf[p], &before[p], sizeof(double)) != 0) ++c;
 	return c;
 }
 template<class V> void mark(V&& v, std::vector<char>& m) {
@@ -155,7 +187,7 @@ static void do_potrf(int reg, bool upper, std::uint64_t dseed, long fail_k) {
 	fill_guard();
 	double const nan = std::numeric_limits<double>::quiet_NaN();
 	for(long i = 0; i < n; ++i) for(long j = 0; j < n; ++j) { bool sel = upper ? (i <= j) : (j <= i); A[i][j] = sel ? S[static_cast<std::size_t>(i)][static_cast<std::size_t>(j)] : nan; }  // the other triangle must not be read
-	std::vector<double> before = g_buf;
+	std::vector<double> before(g_buf.begin(), g_buf.begin() + static_cast<long>(g_len));
 	g_calls.clear();
 	auto&& ret = multi::lapack::potrf(upper ? multi::lapack::filling::upper : multi::lapack::filling::lower, A);
 	flush_calls();
@@ -166,7 +198,7 @@ static void do_potrf(int reg, bool upper, std::uint64_t dseed, long fail_k) {
 		std::vector<long> as;
 		for(auto i = ret.extension().first(); i < ret.extension().last(); ++i) for(auto j = ret[i].extension().first(); j < ret[i].extension().last(); ++j) as.push_back(off_of(&ret[i][j]));
 		auto e0 = ret.extension(); auto e1 = (ret.size() > 0) ? ret[e0.first()].extension() : decltype(e0){};
-		std::fprintf(fans, "ret %ld:%ld %ld:%ld | %zu : %s\n", static_cast<long>(e0.first()), static_cast<long>(e0.last()), static_cast<long>(e1.first()), static_cast<long>(e1.last()), as.size(), join(as).c_str());
+		std::fprintf(fans, "ret %ld:%ld %ld:%ld | %zu : %s\n", static_cast<long>(e0.first()), static_cast<long>(e0.last()), static_cast<long>(e1.first()), static_cast<long>(e1.last()), as.size(), as.size() > 100 ? "_" : join(as).c_str());
 	}
 	// numerics on the leading r x r block of the LOGICAL view
 	double maxerr = 0, scale = 1;
@@ -181,9 +213,9 @@ static void do_potrf(int reg, bool upper, std::uint64_t dseed, long fail_k) {
 	}
 	bool num_ok = maxerr <= 1e-12 * scale * static_cast<double>(n + 1);
 	// only the selected logical triangle of the view may have changed
-	std::vector<char> tri(NBUF, 0), whole(NBUF, 0);
+	std::vector<char> tri(g_len, 0), whole(g_len, 0);
 	for(long i = 0; i < n; ++i) for(long j = 0; j < n; ++j) { whole[static_cast<std::size_t>(off_of(&A[i][j]))] = 1; if(upper ? (i <= j) : (j <= i)) tri[static_cast<std::size_t>(off_of(&A[i][j]))] = 1; }
-	long tri_viol = 0; for(std::size_t p = 0; p < NBUF; ++p) if(whole[p] && !tri[p] && std::memcmp(&g_buf[p], &before[p], sizeof(double)) != 0) ++tri_viol;
+	long tri_viol = 0; for(std::size_t p = 0; p < g_len; ++p) if(whole[p] && !tri[p] && std::memcmp(&g_buf[p], &before[p], sizeof(double)) != 0) ++tri_viol;
 	long frame = frame_changes(before, whole);
 	if(!num_ok) std::fprintf(stderr, "harness: potrf num FAIL maxerr=%g scale=%g n=%ld r=%ld\n", maxerr, scale, n, r);
 	std::fprintf(fans, "num %s | tri %s | frame %s\n", num_ok ? "ok" : "FAIL", tri_viol == 0 ? "ok" : "FAIL", frame == 0 ? "ok" : "FAIL");
@@ -202,7 +234,7 @@ static void do_geqrf(int reg, int taureg, std::uint64_t dseed) {
 	Rng rng(dseed);
 	fill_guard();
 	for(long i = 0; i < p; ++i) for(long j = 0; j < q; ++j) aa[i][j] = static_cast<double>(rng.range(-5, 5));
-	std::vector<double> before = g_buf;
+	std::vector<double> before(g_buf.begin(), g_buf.begin() + static_cast<long>(g_len));
 	std::vector<std::vector<double>> B(static_cast<std::size_t>(m), std::vector<double>(static_cast<std::size_t>(n)));
 	for(long i = 0; i < m; ++i) for(long j = 0; j < n; ++j) B[static_cast<std::size_t>(i)][static_cast<std::size_t>(j)] = aa[j][i];  // LAPACK's matrix is the transpose of the logical view
 	g_calls.clear();
@@ -222,7 +254,7 @@ static void do_geqrf(int reg, int taureg, std::uint64_t dseed) {
 	double maxerr = 0, scale = 1;
 	for(long i = 0; i < m; ++i) for(long j = 0; j < n; ++j) { double e = std::abs(X[static_cast<std::size_t>(i)][static_cast<std::size_t>(j)] - B[static_cast<std::size_t>(i)][static_cast<std::size_t>(j)]); if(!(e <= 1e300)) e = 1e300; maxerr = std::max(maxerr, e); scale = std::max(scale, std::abs(B[static_cast<std::size_t>(i)][static_cast<std::size_t>(j)])); }
 	bool num_ok = outcome == "ok" && maxerr <= 1e-12 * scale * static_cast<double>(m + n);
-	std::vector<char> allowed(NBUF, 0); mark(aa, allowed); mark(tau, allowed);
+	std::vector<char> allowed(g_len, 0); mark(aa, allowed); mark(tau, allowed);
 	long frame = frame_changes(before, allowed);
 	if(!num_ok) std::fprintf(stderr, "harness: geqrf num FAIL maxerr=%g\n", maxerr);
 	std::fprintf(fans, "num %s | frame %s\n", num_ok ? "ok" : "FAIL", frame == 0 ? "ok" : "FAIL");
@@ -240,7 +272,7 @@ static void do_gesvd(int ra, int ru, int rs, int rv, std::uint64_t dseed) {
 	fill_guard();
 	std::vector<std::vector<double>> A0(static_cast<std::size_t>(p), std::vector<double>(static_cast<std::size_t>(q)));
 	for(long i = 0; i < p; ++i) for(long j = 0; j < q; ++j) { A0[static_cast<std::size_t>(i)][static_cast<std::size_t>(j)] = static_cast<double>(rng.range(-5, 5)); AA[i][j] = A0[static_cast<std::size_t>(i)][static_cast<std::size_t>(j)]; }
-	std::vector<double> before = g_buf;
+	std::vector<double> before(g_buf.begin(), g_buf.begin() + static_cast<long>(g_len));
 	g_calls.clear();
 	std::string outcome = "ok";
 	try { multi::lapack::gesvd(AA, UU, ss, VV); } catch(std::runtime_error const&) { outcome = "throw:runtime_error"; }
@@ -254,7 +286,7 @@ static void do_gesvd(int ra, int ru, int rs, int rv, std::uint64_t dseed) {
 	for(long i = 0; i < p; ++i) for(long j = 0; j < p; ++j) { double acc = 0; for(long l = 0; l < p; ++l) acc += UU[l][i] * UU[l][j]; orth = std::max(orth, std::abs(acc - (i == j ? 1.0 : 0.0))); }
 	for(long i = 0; i < q; ++i) for(long j = 0; j < q; ++j) { double acc = 0; for(long l = 0; l < q; ++l) acc += VV[i][l] * VV[j][l]; orth = std::max(orth, std::abs(acc - (i == j ? 1.0 : 0.0))); }
 	bool num_ok = outcome == "ok" && maxerr <= 1e-12 * scale * static_cast<double>(p + q) * 8 && orth <= 1e-12 * static_cast<double>(p + q) * 8;
-	std::vector<char> allowed(NBUF, 0); mark(AA, allowed); mark(UU, allowed); mark(ss, allowed); mark(VV, allowed);
+	std::vector<char> allowed(g_len, 0); mark(AA, allowed); mark(UU, allowed); mark(ss, allowed); mark(VV, allowed);
 	long frame = frame_changes(before, allowed);
 	if(!num_ok) std::fprintf(stderr, "harness: gesvd num FAIL maxerr=%g orth=%g\n", maxerr, orth);
 	std::fprintf(fans, "num %s | order %s | frame %s\n", num_ok ? "ok" : "FAIL", ordered ? "ok" : "FAIL", frame == 0 ? "ok" : "FAIL");
@@ -274,20 +306,20 @@ static void do_syev(int reg, int wreg, int workreg, bool upper, std::uint64_t ds
 	fill_guard();
 	double const nan = std::numeric_limits<double>::quiet_NaN();
 	for(long i = 0; i < n; ++i) for(long j = 0; j < n; ++j) { bool sel = upper ? (i <= j) : (j <= i); a[i][j] = sel ? S[static_cast<std::size_t>(i)][static_cast<std::size_t>(j)] : nan; }  // the other triangle must not be read
-	std::vector<double> before = g_buf;
+	std::vector<double> before(g_buf.begin(), g_buf.begin() + static_cast<long>(g_len));
 	auto uplo = upper ? multi::blas::filling::upper : multi::blas::filling::lower;
 	// eigenvectors (V[k] = k-th vector) and eigenvalues as the overload returns them
 	std::vector<std::vector<double>> V(static_cast<std::size_t>(n), std::vector<double>(static_cast<std::size_t>(n)));
 	std::vector<double> ev(static_cast<std::size_t>(n));
 	bool rows = ((~a).stride() == 1);  // in place: LAPACK's columns are the rows of a view with unit inner stride, the columns otherwise
-	std::vector<char> allowed(NBUF, 0);
+	std::vector<char> allowed(g_len, 0);
 	g_calls.clear();
 	std::string ret = "ret none";
 	auto ret_of = [&](auto&& r) {
 		std::vector<long> as;
 		for(auto i = r.extension().first(); i < r.extension().last(); ++i) for(auto j = r[i].extension().first(); j < r[i].extension().last(); ++j) as.push_back(off_of(&r[i][j]));
 		auto e0 = r.extension(); auto e1 = (r.size() > 0) ? r[e0.first()].extension() : decltype(e0){};
-		return "ret " + std::to_string(e0.first()) + ":" + std::to_string(e0.last()) + " " + std::to_string(e1.first()) + ":" + std::to_string(e1.last()) + " | " + std::to_string(as.size()) + " : " + join(as);
+		return "ret " + std::to_string(e0.first()) + ":" + std::to_string(e0.last()) + " " + std::to_string(e1.first()) + ":" + std::to_string(e1.last()) + " | " + std::to_string(as.size()) + " : " + (as.size() > 100 ? std::string("_") : join(as));
 	};
 	auto take_inplace = [&] { for(long k = 0; k < n; ++k) for(long l = 0; l < n; ++l) V[static_cast<std::size_t>(k)][static_cast<std::size_t>(l)] = rows ? a[k][l] : a[l][k]; };
 	switch(api) {
@@ -330,6 +362,8 @@ static void emit_root(int reg, long base, std::vector<Ex> const& ex) {
 	for(auto const& e : ex) rl += " " + std::to_string(e.first) + " " + std::to_string(e.last);
 	std::fprintf(fprog, "%s\n", rl.c_str());
 	g_regs[static_cast<std::size_t>(reg)] = make_root_any(ex, g_buf.data() + base);
+	long ne = 1; for(auto const& e : ex) ne *= (e.last - e.first);
+	g_len = std::max(g_len, static_cast<std::size_t>(base + ne + 64));
 }
 static void emit_op(int dst, int src, Op const& op) {
 	std::fprintf(fprog, "%s\n", op_line(dst, src, op).c_str());
@@ -359,10 +393,16 @@ static long gen_vector(Rng& rng, int reg, long base, long n) {
 static void gen_program(Rng& rng, long pnum, long nprog, std::uint64_t seed) {
 	std::fprintf(fprog, "prog %ld %llu\n", pnum, static_cast<unsigned long long>(seed)); std::fprintf(fans, "prog %ld %llu\n", pnum, static_cast<unsigned long long>(seed));
 	long base = 40 + rng.range(0, 7);
+	g_len = 0;
+	// sizes: 1..8 as a rule; in a few % of the programs a size around a power of two or well beyond (size-dependent code paths)
+	static long const TH[] = {15, 16, 17, 31, 32, 33, 63, 64, 65, 127, 128, 129, 130, 200, 257};
+	bool large = rng.coin(4);
+	auto th = [&] { return TH[rng.pick({8, 8, 8, 7, 7, 7, 7, 7, 7, 6, 6, 9, 6, 4, 3})]; };
+	auto small = [&] { return rng.range(1, 8); };
 	int c = LAPACK_PART == 1 ? rng.pick({70, 0, 30}) : LAPACK_PART == 2 ? rng.pick({0, 65, 35}) : 3;
 	std::string line;
 	if(c == 3) {
-		long n = rng.range(1, 8);
+		long n = large ? th() : small();
 		bool colmajor = rng.coin(50);
 		base += gen_matrix(rng, 1, base, n, n, colmajor, true) + 8;
 		base += gen_vector(rng, 3, base, n) + 8;
@@ -370,18 +410,20 @@ static void gen_program(Rng& rng, long pnum, long nprog, std::uint64_t seed) {
 		int api = rng.pick({35, 25, 15, 15, 10});
 		line = "x syev 1 3 5 " + std::string(rng.coin(50) ? "U" : "L") + " " + std::to_string(rng.next() % 1000000) + " " + std::to_string(api);
 	} else if(c == 0) {
-		long n = rng.range(1, 8);
+		long n = large ? th() : small();
 		bool colmajor = rng.coin(50);
 		base += gen_matrix(rng, 1, base, n, n, colmajor, true) + 8;
 		long fail_k = rng.coin(30) ? rng.range(1, n) : 0;
 		line = "x potrf 1 " + std::string(rng.coin(50) ? "U" : "L") + " " + std::to_string(rng.next() % 1000000) + " " + std::to_string(fail_k);
 	} else if(c == 1) {
-		long p = rng.range(1, 8), q = rng.range(1, 8);
+		long p = small(), q = small();
+		if(large) { int k = rng.pick({35, 35, 30}); if(k == 0) p = th(); else if(k == 1) q = th(); else { p = std::min(th(), 65L); q = std::min(th(), 65L); } }
 		base += gen_matrix(rng, 1, base, p, q, false, true) + 8;
 		base += gen_vector(rng, 3, base, std::min(p, q)) + 8;
 		line = "x geqrf 1 3 " + std::to_string(rng.next() % 1000000);
 	} else {
-		long p = rng.range(1, 8), q = rng.range(1, 8);
+		long p = small(), q = small();
+		if(large) { int k = rng.pick({35, 35, 30}); if(k == 0) p = th(); else if(k == 1) q = th(); else { p = std::min(th(), 33L); q = std::min(th(), 33L); } }
 		base += gen_matrix(rng, 1, base, p, q, false, true) + 8;
 		base += gen_matrix(rng, 3, base, p, p, false, true) + 8;
 		base += gen_vector(rng, 5, base, std::min(p, q)) + 8;
@@ -403,12 +445,15 @@ static void run_replay(char const* path) {
 		std::fprintf(fprog, "%s\n", line.c_str());
 		auto w = words(line);
 		if(w.empty() || w[0] == "#") continue;
-		if(w[0] == "prog") { std::fprintf(fans, "%s\n", line.c_str()); continue; }
+		if(w[0] == "prog") { std::fprintf(fans, "%s\n", line.c_str()); g_len = 0; continue; }
 		if(w[0] == "root") {
 			int reg = std::stoi(w[1]); long base = std::stol(w[2]); int D = std::stoi(w[3]);
 			std::vector<Ex> ex;
 			for(int k = 0; k < D; ++k) ex.push_back(Ex{std::stol(w[4 + 2 * static_cast<std::size_t>(k)]), std::stol(w[5 + 2 * static_cast<std::size_t>(k)])});
 			g_regs[static_cast<std::size_t>(reg)] = make_root_any(ex, g_buf.data() + base);
+			long ne = 1; for(auto const& e : ex) ne *= (e.last - e.first);
+			g_len = std::max(g_len, static_cast<std::size_t>(base + ne + 64));
+			if(g_len > NBUF) { std::fprintf(stderr, "harness: buffer too small\n"); std::abort(); }
 		} else if(w[0] == "v") {
 			int dst = std::stoi(w[1]); int src = std::stoi(w[2]);
 			Op op; op.name = w[3];
